@@ -95,6 +95,15 @@ def lib_frame(exc: BaseException) -> str:
     return "?"
 
 
+def library_raised(exc: BaseException) -> bool:
+    """True iff the exception passed through code of the library under test.
+    Checks that skip a case because 'the library raised' must call this and
+    re-raise otherwise: an exception of the harness itself is a harness error
+    (exit 2), never a silently skipped case."""
+    tb = traceback.extract_tb(exc.__traceback__)
+    return any("numba_scfg" in fr.filename and "/tests/" not in fr.filename for fr in tb)
+
+
 def exc_sig(prefix: str, exc: BaseException) -> str:
     return f"{prefix}:{type(exc).__name__}@{lib_frame(exc)}"
 
@@ -402,6 +411,10 @@ def _run_check(mod, modname, pid, tier, seed, nproc, t0, write_evidence) -> int:
             excluded_by_known_finding=excluded,
             known_findings_reported=len(known_lines),
         )
+        skipped = sum(v for k, v in merged["counts"].items() if "not_evaluated" in k)
+        if skipped > merged["evals"]:
+            cov["weak_run"] = f"{skipped} stage evaluations were skipped because a stage driver raised (see C02); this run explored little"
+            print(f"WEAK-RUN property={pid}: {cov['weak_run']}")
         if hasattr(mod, "finalize"):
             mod.finalize(cov, merged, tier)
         ev = dict(
